@@ -476,7 +476,7 @@ def gen_node(rng):
     names = list(range(1, npeers + 1))
     anyname = names + names + [99, None]
     p = rng.choice([0.25, 0.5, 1.0])
-    c = dict(npeers=npeers, p=p, susp=p * rng.choice([0.5, 2.0]), k=rng.randint(0, 3), thr=rng.choice([0.5, 1.0, 8.0]),
+    c = dict(npeers=npeers, p=p, susp=p * rng.choice([0.5, 2.0]), k=rng.randint(0, 3), thr=rng.choice([0.0, 0.5, 1.0, 8.0]),
              seed=rng.randrange(1 << 30), ops=[])
     t = 0
     for _ in range(rng.randint(5, 60)):
@@ -656,7 +656,7 @@ TRUSTED = [
     "cluster relations C13/Net.v / C13/NetCrash.v stand for the engine + Network (least timestamp first, cancelled events skipped, message = one event at now+delay); every recorded run of the world/cworld families is checked inside Coq to be a path of them (ok_world / ok_cworld, proved sound), runs not generated are covered by the engine property C01",
 ]
 FILES = ["C13/Model.v", "C13/PhiModel.v", "C13/Net.v", "C13/NetCheck.v", "C13/NodeProofs.v", "C13/PhiProofs.v", "C13/NetProofs.v",
-         "C13/NetCheckProofs.v", "C13/ProbeOrder.v", "C13/NetCrash.v", "C13/NetCrashCheck.v", "C13/Props.v"]
+         "C13/NetCheckProofs.v", "C13/ProbeOrder.v", "C13/NetCrash.v", "C13/NetCrashCheck.v", "C13/Examples.v", "C13/Props.v"]
 
 
 def _coq_cases_sharded(ctx):
@@ -677,7 +677,7 @@ def run(ctx):
     for fam in FAMILIES:
         # a case takes ~30 ms: worker processes (import of the package in each) only pay off for thorough
         fam.parallel = fam.parallel and not ctx.quick
-    for fam, n in ((FAMILIES[0], ctx.n(24, 250)), (FAMILIES[1], ctx.n(100, 1500)), (FAMILIES[2], ctx.n(16, 150)), (FAMILIES[3], ctx.n(14, 120)), (FAMILIES[4], ctx.n(100, 1500))):
+    for fam, n in ((FAMILIES[0], ctx.n(24, 200)), (FAMILIES[1], ctx.n(100, 1000)), (FAMILIES[2], ctx.n(16, 100)), (FAMILIES[3], ctx.n(14, 80)), (FAMILIES[4], ctx.n(100, 1500))):
         stats.append(run_family(ctx, fam, n))
         ctx.log(f"family {fam.name}: {stats[-1]['cases']} cases, {stats[-1]['mismatches']} mismatches, "
                 f"{stats[-1]['oracle_failures']} oracle failures")
